@@ -203,9 +203,11 @@ Section WithRot.
 
   Definition o_coherent (o : octree) : Prop := o_cache o = None \/ o_cache o = Some (o_compute rotm o).
 
-  Lemma o_step_coherent o op : o_coherent o -> o_coherent (fst (o_step rotm o op)).
+  Definition o_api (op : o_op) : Prop := match op with OOriginX false _ => False | _ => True end.
+
+  Lemma o_step_coherent o op : o_api op -> o_coherent o -> o_coherent (fst (o_step rotm o op)).
   Proof.
-    intros H. destruct op; unfold o_step; cbn; try (left; reflexivity).
+    intros Ha H. destruct op as [|p|a|q|q|q|c|[|] x]; unfold o_step; cbn; try (left; reflexivity); try exact H; try contradiction.
     destruct (o_cache o) eqn:E; cbn; [exact H|]. right.
     destruct o as [org r eu ev ew su sv sw cells cache]. cbn. unfold o_compute, o_cells_or_default. cbn.
     destruct cells; reflexivity.
@@ -226,16 +228,17 @@ Section WithRot.
     rewrite IH. destruct out; reflexivity.
   Qed.
 
-  Lemma o_attrs_after_coherent o ops : o_coherent o -> o_coherent (o_attrs_after o ops).
+  Lemma o_attrs_after_coherent o ops : Forall o_api ops -> o_coherent o -> o_coherent (o_attrs_after o ops).
   Proof.
-    revert o; induction ops as [|op r IH]; intros o H; simpl; [exact H|]. apply IH. apply o_step_coherent. exact H.
+    revert o; induction ops as [|op r IH]; intros o Ha H; simpl; [exact H|]. inversion Ha; subst.
+    apply IH; [assumption|]. apply o_step_coherent; assumption.
   Qed.
 
-  Lemma o_history_read o ops : o_coherent o ->
+  Lemma o_history_read o ops : Forall o_api ops -> o_coherent o ->
     snd (o_run rotm o (ops ++ [ORead])) = snd (o_run rotm o ops) ++ [o_compute rotm (o_attrs_after o ops)].
   Proof.
-    intros H. rewrite o_run_app. f_equal.
-    pose proof (o_attrs_after_coherent o ops H) as Hc.
+    intros Ha H. rewrite o_run_app. f_equal.
+    pose proof (o_attrs_after_coherent o ops Ha H) as Hc.
     set (o' := o_attrs_after o ops) in *.
     unfold o_run, o_step. destruct Hc as [Hc|Hc]; rewrite Hc; reflexivity.
   Qed.
